@@ -5,6 +5,7 @@ package processor
 // trace line per handler call with the projected post-state.  Injected via -overlay; not part of /repo.
 
 import (
+	"github.com/alephium/wormhole-fork/node/pkg/notify/discord"
 	"context"
 	"crypto/sha256"
 	"encoding/binary"
@@ -970,12 +971,42 @@ func phReqCap(sc vhScenario) int {
 }
 
 // start creates the Processor (a fresh one after a Restart step, on the same store) and, in run-loop mode, its Run goroutine.
+// phNotifier: a miss notifier that talks to nobody, so that the notification branch of the cleanup pass runs in every
+// history (a node in production has one).  The real type can only be constructed by logging in to Discord; this value
+// has no channels (nothing is ever sent) and knows the group id of every guardian name the harness can produce, so the
+// goroutine the cleanup pass starts never reaches the API client.  Built by reflection: if the type changes shape the
+// harness falls back to running without a notifier.
+func phNotifier(keys *vhKeys) (n *discord.DiscordNotifier) {
+	defer func() {
+		if recover() != nil {
+			n = nil
+		}
+	}()
+	n = &discord.DiscordNotifier{}
+	v := reflect.ValueOf(n).Elem()
+	f := v.FieldByName("groupToID")
+	if !f.IsValid() || f.Kind() != reflect.Map || !v.FieldByName("chans").IsValid() {
+		return nil
+	}
+	m := map[string]string{}
+	for _, pre := range []string{"g", "h", "x", "k", "s"} {
+		for i := 0; i <= 40; i++ {
+			m[hex.EncodeToString(keys.Addr(fmt.Sprintf("%s%d", pre, i)).Bytes())] = fmt.Sprintf("group-%s%d", pre, i)
+		}
+	}
+	reflect.NewAt(f.Type(), unsafe.Pointer(f.UnsafeAddr())).Elem().Set(reflect.ValueOf(m))
+	if lf := v.FieldByName("logger"); lf.IsValid() && lf.Type() == reflect.TypeOf(zap.NewNop()) {
+		reflect.NewAt(lf.Type(), unsafe.Pointer(lf.UnsafeAddr())).Elem().Set(reflect.ValueOf(zap.NewNop()))
+	}
+	return n
+}
+
 func (r *phRun) start() {
 	w := r.w
 	gst := common.NewGuardianSetState(nil)
 	r.p = NewProcessor(w.ctx, r.store, r.lockC, r.setC, r.sendC, r.obsvC, r.reqC, r.injectC, r.signedInC,
 		&ecdsasigner.ECDSAPrivateKey{Value: w.keys.Key(w.self)}, gst,
-		reporter.EventListener(zap.NewNop()), nil, phGovChain, phGovEmitter)
+		reporter.EventListener(zap.NewNop()), phNotifier(w.keys), phGovChain, phGovEmitter)
 	if r.loopMode {
 		core, logs := observer.New(zap.InfoLevel)
 		r.logs = logs
